@@ -313,10 +313,12 @@ func c01Sweep(r *rep.Run, hs []*drive.Harness) {
 					term.Op("and", B, core, term.Const(true)),
 					term.Op("or", B, term.Const(false), core),
 					term.Op("and", B, term.Const(true), core, term.Const(true)),
-					term.If(core, term.Const(1), term.Const(2)))
+					term.If(core, term.Const(1), term.Const(2)),
+					term.Op("not", B, core), term.Op("!", B, term.Op("not", B, core)), term.Op("not", B, term.Op("not", B, term.Op("!", B, core))))
 			} else {
 				ctxs = append(ctxs, term.If(core, term.Const(1), term.Const(2)),
-					term.If(term.Const(false), term.Const(0), core))
+					term.If(term.Const(false), term.Const(0), core),
+					term.Op("not", B, core), term.Op("not", B, term.Op("!", B, core)), term.Op("=", B, core, term.Op("not", B, term.Op("not", B, core))))
 			}
 			for _, t := range ctxs {
 				src := t.Src()
